@@ -42,7 +42,7 @@ P = {
          ['equality of whole solutions across builds; ClipperD::CheckCallback (std::bind)'], '5 C15'),
  'C16': ('Proof (call-trace contracts) that every PathsD overload forwards to the integer operation with the documented scale on paths, delta and arc tolerance and descales the result; Point<int64_t>::Init(double) rounds to a nearest integer; BuildPathsD/BuildTreeD pass invScale_; ScalePath scales x by scale_x and y by scale_y; bounded BuildPathD descaling; ScaleRect<int64,double> rounds each side; PolyPath Clear frame.',
          ['rounding of x*scale itself (floating-point product), precision loss on descale, equality of complete results'], '5 C16'),
- 'C17': ('Proof (call-trace contracts) that every exported function forwards every parameter to the slot of the same meaning; argument validation; marshaling length arithmetic and in-bounds access; CRectToRect / ConvertCPathToPathT; bounded ConvertCPathsDToPaths64 order and rounding.',
+ 'C17': ('Proof (call-trace contracts) that every exported function forwards every parameter to the slot of the same meaning; argument validation; marshaling length arithmetic and in-bounds access; CRectToRect / ConvertCPathToPathT; bounded ConvertCPathsDToPaths64 order and rounding; polytree writers by induction on depth (block length, layout, no overrun of the allocated array).',
          ['equality of complete results with the C++ call beyond forwarding and marshaling'], '5 C17'),
  'C18': ('Proof for all 64-bit inputs whose differences do not overflow: TriSign, ProductsAreEqual, CrossProductSign, IsCollinear on both the __int128 and the portable branch (products as exact ghost products), Multiply carry chain; bounded PointInPolygon vs exact even-odd oracle; GetSegmentIntersectPt: parallel reported, result on the first segment (t clamped), no integer overflow, determinant and parameter invariant under translation; bounded Area exactness for small polygons anywhere in range.',
          ['accuracy of GetSegmentIntersectPt, GetClosestPointOnSegment, Area (floating-point multiply/divide is beyond every installed back end); the 64x64 multiplier itself (assumption A1/A2)'], '5 C18'),
